@@ -20,6 +20,17 @@ CHECKS = {
             'entities. Failing histories are minimised before being reported.',
             'Transport, HTTP server, ws-discovery, clock, uuid4 and Thread.start are harness stand-ins; one MDIB file '
             '(tests/mdib_tns.xml); depth and alphabet bounds as stated in the evidence.', '3/C01'),
+    'C02': ('H', 'explicit-state exploration of provider transaction histories incl. all ordered pairs of related operations inside one transaction; version and referential invariants on consecutive canonical snapshots',
+            'All 2-event histories over the 48-event alphabet, 60 multi-operation descriptor transactions (every ordered pair of '
+            '9 related operations on parent / grandparent / child / siblings / descriptor+state through the classic and the entity '
+            'interface, plus triples) from 5 pre-states and followed by every core event (thorough: depth 3, pairs of such '
+            'transactions). After every step: MdibVersion +1 exactly iff content changed, 0 for empty/aborted; per handle the '
+            'version never drops below the maximum the harness ever saw (survives delete/re-create) and rises when content '
+            'changes; one (handle, version) is never published with two contents (snapshots and transaction result lists); '
+            'objects not named by the transaction result are unchanged; state->descriptor, DescriptorVersion, single-state and '
+            'parent references hold.',
+            'Provider side only; one MDIB file; depth/alphabet bounds as in the evidence. Version bookkeeping of the oracle is '
+            'independent of handle_version_lookup.', '3/C02'),
     'C15': ('I', 'exhaustive enumeration of all outcomes of both random draws (choice-point DFS on the real scheduling code)',
             'All 501 x 200 outcomes of the two random draws for the unicast and the multicast parameter set are executed '
             'on the real NetworkingThread.add_outbound_message/_repeated_enqueue_msg with clock and RNG owned by the '
